@@ -320,12 +320,12 @@ theorem plan2_sound (q : Q2) (db : DB) (h : planSound q = true) : execPlan (plan
     exact this.trans (core_left q db hns db.t1)
   | some n =>
     -- LIMIT pushed: LEFT join and WHERE evaluated completely in the first fetch
-    have hcond : (q.kind.isLeft && whereLeftOnly q.w && !q.groupBy && !q.having) = true := by
-      have : ((plan q).limit0.isNone || (q.kind.isLeft && whereLeftOnly q.w && !q.groupBy && !q.having)) = true := hls
+    have hcond : (q.kind.isLeft && whereLeftOnly q.w) = true := by
+      have : ((plan q).limit0.isNone || (q.kind.isLeft && whereLeftOnly q.w)) = true := hls
       simpa [hl0] using this
     simp only [Bool.and_eq_true] at hcond
-    have hleft : q.kind.isLeft = true := hcond.1.1.1
-    have hwl : whereLeftOnly q.w = true := hcond.1.1.2
+    have hleft : q.kind.isLeft = true := hcond.1
+    have hwl : whereLeftOnly q.w = true := hcond.2
     have hlim : q.limit = some n := by
       have : (plan q).limit0 = some n := hl0
       unfold plan at this
